@@ -186,6 +186,11 @@ type c19Item struct {
 
 type c19PodDef struct {
 	isResv   bool // the holder is a Reservation; the cache sees its reserve pod
+	// staleTpl (ext2): the Reservation's spec.template carries the device-allocated annotation of a 'previous pod'
+	// (the migration controller copies the whole ObjectMeta of the pod being migrated into the template); the
+	// live allocation is written onto the Reservation OBJECT and must be what the reserve pod carries
+	staleTpl apiext.DeviceAllocations
+	waiting  bool // the scheduled Reservation is in phase Waiting (still active: its devices are taken), not Available
 	id, node int
 	items    []c19Item // grouped by ty ascending, slice order inside one ty
 	base     *corev1.Pod
@@ -568,6 +573,11 @@ func c19PersistResv(h *vHarness, p *c19PodDef, assigned bool) *schedulingv1alpha
 			TTL:    &metav1.Duration{Duration: time.Hour},
 		},
 	}
+	if p.staleTpl != nil && p.allocs() != nil {
+		if err := apiext.SetDeviceAllocations(&resv.Spec.Template.ObjectMeta, p.staleTpl); err != nil {
+			h.Fail("C19:dev-codec-roundtrip", "reservation %d: SetDeviceAllocations failed on the template", p.id)
+		}
+	}
 	if !assigned {
 		resv.Status.Phase = schedulingv1alpha1.ReservationPending
 		return resv
@@ -581,6 +591,9 @@ func c19PersistResv(h *vHarness, p *c19PodDef, assigned bool) *schedulingv1alpha
 	}
 	resv.Status.NodeName = c19NodeName(p.node)
 	resv.Status.Phase = schedulingv1alpha1.ReservationAvailable
+	if p.waiting {
+		resv.Status.Phase = schedulingv1alpha1.ReservationWaiting
+	}
 	var got apiext.DeviceAllocations
 	var err error
 	if h.Guard(func() { got, err = apiext.GetDeviceAllocations(resv.Annotations) }) || err != nil {
@@ -593,6 +606,23 @@ func c19PersistResv(h *vHarness, p *c19PodDef, assigned bool) *schedulingv1alpha
 		}
 	} else if d := c19AllocsDiff(want, got); d != "" {
 		h.Fail("C19:dev-codec-roundtrip", "reservation %d: %s", p.id, d)
+	}
+	// oracle (reserve pod, ext2): what a restarted scheduler reads for a Reservation is the reserve pod built by
+	// NewReservePod; it must carry exactly the allocation persisted on the Reservation object, whatever
+	// spec.template carries (theorem reserve_pod_reads_own_allocation)
+	if want != nil {
+		var rp *corev1.Pod
+		var got2 apiext.DeviceAllocations
+		var err2 error
+		if h.Guard(func() {
+			rp = reservationutil.NewReservePod(resv.DeepCopy())
+			got2, err2 = apiext.GetDeviceAllocations(rp.Annotations)
+		}) || err2 != nil {
+			h.Fail("C19:dev-reserve-pod-reads-stale-template", "reservation %d: reserve pod unreadable", p.id)
+		} else if d := c19AllocsDiff(want, got2); d != "" {
+			h.Fail("C19:dev-reserve-pod-reads-stale-template", "reservation %d: the reserve pod does not carry the allocation persisted on the Reservation object: %s (own=%q template=%q)",
+				p.id, d, resv.Annotations[apiext.AnnotationDeviceAllocated], resv.Spec.Template.Annotations[apiext.AnnotationDeviceAllocated])
+		}
 	}
 	return resv
 }
@@ -1035,6 +1065,30 @@ func TestVerifC19Dev(t *testing.T) {
 			h.Tag("stream:reservation-holder")
 			for _, p := range pods {
 				p.isResv = r.Bool()
+			}
+			// ext2: about half of the Reservation holders were created from a RUNNING pod (migration): their template
+			// carries that pod's device-allocated annotation = the allocation of another pod definition of the case
+			// (other minors / amounts / VFs), else a hand-made one on GPU minor 0
+			for i, p := range pods {
+				if !p.isResv || p.allocs() == nil || !r.Bool() {
+					continue
+				}
+				other := pods[(i+1+r.Intn(len(pods)-1))%len(pods)]
+				p.staleTpl = other.allocs()
+				if p.staleTpl == nil || c19AllocsDiff(p.allocs(), p.staleTpl) == "" {
+					p.staleTpl = apiext.DeviceAllocations{schedulingv1alpha1.GPU: {{Minor: 0, Resources: corev1.ResourceList{
+						apiext.ResourceGPUCore: *resource.NewQuantity(100, resource.DecimalSI), apiext.ResourceGPUMemoryRatio: *resource.NewQuantity(100, resource.DecimalSI)}}}}
+					if c19AllocsDiff(p.allocs(), p.staleTpl) == "" {
+						p.staleTpl[schedulingv1alpha1.GPU][0].Minor = 1
+					}
+				}
+				h.Tag("resv:stale-template")
+			}
+			for _, p := range pods {
+				if p.isResv && r.Chance(1, 5) {
+					p.waiting = true
+					h.Tag("resv:waiting")
+				}
 			}
 		}
 
